@@ -162,15 +162,23 @@ Definition pop (p : proc) (m : mstep) (r : list mstep) (cid seqv : option N) (la
      p_child := child; p_sess := p_sess p; p_cnt := cnt |}.
 Definition pop_same (p : proc) (m : mstep) (r : list mstep) : proc :=
   pop p m r (p_cid p) (p_seq p) (p_last p) (p_child p) (p_cnt p).
-(* `?` / early return: the call ends, its guard (if any) is dropped *)
-Definition aborted (p : proc) : proc :=
-  {| p_rem := []; p_ph := PIdle; p_cid := p_cid p; p_seq := None; p_last := None;
+(* `?` / early return: the call ends (the actor goes on with its next call, if any), its guard
+   (if any) is dropped.  A call starts with the step that fixes its target. *)
+Definition call_start (m : mstep) : bool :=
+  match m with MTarget _ | MPickNewest => true | _ => false end.
+Fixpoint skip_call (r : list mstep) : list mstep :=
+  match r with
+  | [] => []
+  | m :: r' => if call_start m then r else skip_call r'
+  end.
+Definition aborted (p : proc) (r : list mstep) : proc :=
+  {| p_rem := skip_call r; p_ph := PIdle; p_cid := p_cid p; p_seq := None; p_last := None;
      p_child := p_child p; p_sess := p_sess p; p_cnt := p_cnt p |}.
 Definition release (mu : option N) (a : N) : option N :=
   match mu with Some h => if h =? a then None else mu | None => None end.
-Definition abort (st : state) (a : N) (p : proc) : state :=
+Definition abort (st : state) (a : N) (p : proc) (r : list mstep) : state :=
   set_proc (set_store st (s_log st) (s_side st) (s_next st) (s_index st) (s_fresh st) (release (s_mu st) a))
-           a (aborted p).
+           a (aborted p r).
 
 (* replay_events(c): sidecar if it validates, else validated truth replay (+ rebuild when non-empty).
    None = Err (the whole log does not validate). *)
@@ -184,8 +192,26 @@ Definition replay_events (st : state) (c : N) : option (list frame) * (N -> opti
     else (None, s_side st)
   end.
 
-(* load_next_seq_for(c) *)
+(* load_next_seq_for(c) after the S3 repair (/repo 0b0d2b0): the LOG decides.  EventLog::last_seq
+   scans events.jsonl backwards for the last frame of the stream (no whole-log validation); when the
+   sidecar tail does not name the same seq the sidecar is rebuilt from a validated replay (best
+   effort).  (The third branch of the code - the log itself is unreadable - has no counterpart:
+   the model's log is always a list of frames.) *)
 Definition load_next (st : state) (c : N) : option N * (N -> option (list sline)) :=
+  match last_seq (cstream c (s_log st)) with
+  | Some q =>
+    let rebuilt := if validate (s_log st)
+                   then upd (s_side st) c (Some (map SGood (cstream c (s_log st)))) else s_side st in
+    (Some (q + 1),
+     match side_tail c (s_side st c) with
+     | Some q' => if q' =? q then s_side st else rebuilt
+     | None => rebuilt
+     end)
+  | None => (None, s_side st)
+  end.
+
+(* load_next_seq_for(c) as it was before that repair: numbered from the sidecar tail (S3) *)
+Definition load_next_unfixed (st : state) (c : N) : option N * (N -> option (list sline)) :=
   match side_tail c (s_side st c) with
   | Some q => (Some (q + 1), s_side st)
   | None =>
@@ -209,14 +235,15 @@ Definition side_append (sd : N -> option (list sline)) (f : frame) : N -> option
   | _ => upd sd (sid f) (Some (ls ++ [SGood f]))
   end.
 
-Definition exec_m (st : state) (a : N) (p : proc) (m : mstep) (r : list mstep) : state :=
+Definition loader := state -> N -> option N * (N -> option (list sline)).
+Definition exec_m_gen (ld : loader) (st : state) (a : N) (p : proc) (m : mstep) (r : list mstep) : state :=
   let keep := set_proc st a (pop_same p m r) in
   match m with
   | MTarget c => set_proc st a (pop p m r (Some c) (p_seq p) (p_last p) (p_child p) (p_cnt p))
   | MPickNewest =>
     match hd_error (rev (s_index st)) with
     | Some c => set_proc st a (pop p m r (Some c) (p_seq p) (p_last p) (p_child p) (p_cnt p))
-    | None => abort st a p
+    | None => abort st a p r
     end
   | MLock =>
     match s_mu st with
@@ -226,17 +253,17 @@ Definition exec_m (st : state) (a : N) (p : proc) (m : mstep) (r : list mstep) :
     end
   | MChoose =>
     match p_cid p with
-    | None => abort st a p
+    | None => abort st a p r
     | Some c =>
       match s_next st c with
       | Some n => set_proc st a (pop p m r (p_cid p) (Some n) (p_last p) (p_child p) (p_cnt p))
       | None =>
-        let '(res, sd) := load_next st c in
+        let '(res, sd) := ld st c in
         match res with
         | Some n =>
           set_proc (set_store st (s_log st) sd (upd (s_next st) c (Some n)) (s_index st) (s_fresh st) (s_mu st))
                    a (pop p m r (p_cid p) (Some n) (p_last p) (p_child p) (p_cnt p))
-        | None => abort (set_store st (s_log st) sd (s_next st) (s_index st) (s_fresh st) (s_mu st)) a p
+        | None => abort (set_store st (s_log st) sd (s_next st) (s_index st) (s_fresh st) (s_mu st)) a p r
         end
       end
     end
@@ -246,7 +273,7 @@ Definition exec_m (st : state) (a : N) (p : proc) (m : mstep) (r : list mstep) :
       let f := mk_frame st c n t ar in
       set_proc (set_store st (s_log st ++ [f]) (s_side st) (s_next st) (s_index st) (s_fresh st + 1) (s_mu st))
                a (pop p m r (p_cid p) (p_seq p) (Some f) (p_child p) (p_cnt p))
-    | _, _ => abort st a p
+    | _, _ => abort st a p r
     end
   | MSidecar =>
     match p_last p with
@@ -261,7 +288,7 @@ Definition exec_m (st : state) (a : N) (p : proc) (m : mstep) (r : list mstep) :
       set_proc (set_store st (s_log st) (s_side st) (upd (s_next st) c (Some (n + 1))) (s_index st)
                           (s_fresh st) (s_mu st))
                a (pop p m r (p_cid p) None (p_last p) (p_child p) (p_cnt p))
-    | _, _ => abort st a p
+    | _, _ => abort st a p r
     end
   | MUnlock =>
     set_proc (set_store st (s_log st) (s_side st) (s_next st) (s_index st) (s_fresh st) (release (s_mu st) a))
@@ -275,26 +302,26 @@ Definition exec_m (st : state) (a : N) (p : proc) (m : mstep) (r : list mstep) :
       let f := mk_frame st c n t ar in
       set_proc (set_store st (s_log st ++ [f]) (s_side st) (s_next st) (s_index st) (s_fresh st + 1) (s_mu st))
                a (pop p m r (p_cid p) (p_seq p) (Some f) (p_child p) (p_cnt p))
-    | None => abort st a p
+    | None => abort st a p r
     end
   | MIndexInsert =>
     match p_child p with
     | Some c => set_proc (set_store st (s_log st) (s_side st) (s_next st) (s_index st ++ [c]) (s_fresh st) (s_mu st))
                          a (pop_same p m r)
-    | None => abort st a p
+    | None => abort st a p r
     end
   | MSetNext n =>
     match p_child p with
     | Some c => set_proc (set_store st (s_log st) (s_side st) (upd (s_next st) c (Some n)) (s_index st)
                                     (s_fresh st) (s_mu st)) a (pop_same p m r)
-    | None => abort st a p
+    | None => abort st a p r
     end
   | MSetNextLocked n =>
     match s_mu st, p_child p with
     | Some _, _ => st                                       (* blocked *)
     | None, Some c => set_proc (set_store st (s_log st) (s_side st) (upd (s_next st) c (Some n)) (s_index st)
                                           (s_fresh st) (s_mu st)) a (pop_same p m r)
-    | None, None => abort st a p
+    | None, None => abort st a p r
     end
   | MRead =>
     match p_cid p with
@@ -321,7 +348,7 @@ Definition exec_m (st : state) (a : N) (p : proc) (m : mstep) (r : list mstep) :
       let f := mk_frame st (p_sess p) n t [] in
       set_proc (set_store st (s_log st ++ [f]) (s_side st) (s_next st) (s_index st) (s_fresh st + 1) (s_mu st))
                a (pop p m r (p_cid p) None (p_last p) (p_child p) (p_cnt p))
-    | None => abort st a p
+    | None => abort st a p r
     end
   | MTaskUnlock =>
     set_proc (set_task st (s_tcnt st) (upd (s_tmu st) (p_sess p) (release (s_tmu st (p_sess p)) a)))
@@ -329,20 +356,24 @@ Definition exec_m (st : state) (a : N) (p : proc) (m : mstep) (r : list mstep) :
   | MUnknown => keep
   end.
 
-Definition step (st : state) (a : N) : state :=
+Definition exec_m := exec_m_gen load_next.
+
+Definition step_gen (ld : loader) (st : state) (a : N) : state :=
   match s_procs st a with
   | None => st
   | Some p => match p_rem p with
               | [] => st
-              | m :: r => exec_m st a p m r
+              | m :: r => exec_m_gen ld st a p m r
               end
   end.
+Definition step := step_gen load_next.
 
-Fixpoint run (sched : list N) (st : state) : state :=
+Fixpoint run_gen (ld : loader) (sched : list N) (st : state) : state :=
   match sched with
   | [] => st
-  | a :: r => run r (step st a)
+  | a :: r => run_gen ld r (step_gen ld st a)
   end.
+Definition run := run_gen load_next.
 
 (* ---------- spawning, restart ---------- *)
 Definition new_proc (prog : list mstep) (sess : N) : proc :=
@@ -529,14 +560,15 @@ Definition cap_can_append (cp : cap) : bool :=
   end.
 
 (* ---------- C02 correspondence: a history of calls, cache faults and restarts ---------- *)
-Inductive fkind02 := XDelete | XCutLine | XTearTail | XEmpty.
+Inductive fkind02 := XDelete | XCutLine | XTearTail | XEmpty | XRollback (k : nat).
 Inductive call :=
 | KCap (cp : cap) (th : nat) (f : cfacts)    (* th: ordinal of the thread in creation order; unknown id if too big *)
 | KFault (x : fkind02) (th : nat)
 | KRestart.
 
 Definition mk_fault (x : fkind02) (c : N) : fault :=
-  match x with XDelete => FDelete c | XCutLine => FCutLine c | XTearTail => FTearTail c | XEmpty => FEmpty c end.
+  match x with XDelete => FDelete c | XCutLine => FCutLine c | XTearTail => FTearTail c | XEmpty => FEmpty c
+  | XRollback k => FRollback c k end.
 
 Definition do_call (st : state) (k : call) : state :=
   match k with
@@ -557,3 +589,51 @@ Record case02 := { c2_calls : list call; c2_expect : list N }.
 Definition model_obs_c02 (c : case02) : list N :=
   let '(ns, fin) := run_calls empty_state (c2_calls c) in ns ++ canon_log (s_log fin).
 Definition check_case_c02 (c : case02) : bool := lN_eqb (model_obs_c02 c) (c2_expect c).
+
+(* ---------- C01 correspondence: sequential setup history, then concurrent actors under a schedule ---------- *)
+Definition fact_ok : cfacts :=
+  {| cf_ok := true; cf_stride0 := false; cf_dry := false; cf_planned := 0%nat; cf_inflight := false;
+     cf_execute := false; cf_created := 0%nat; cf_ended := false |}.
+
+Inductive cop :=
+| OAppend (t : etype) (th : nat)     (* one of the locked append functions on the th-th thread *)
+| OPostNewest                        (* a client lists the threads and posts to the newest one *)
+| OBranch (th : nat)
+| OHandoff (th : nat)
+| ORead (th : nat).                  (* replay_events (status / cut points / stream replay) *)
+
+Definition prog_of_cop (l : log) (o : cop) : list mstep :=
+  match o with
+  | OAppend t th => MTarget (nth_thread l th) :: locked_append t []
+  | OPostNewest => MPickNewest :: locked_append EContinuityMessageAppended []
+  | OBranch th => [MTarget (nth_thread l th); MRead] ++ lineage_prog EContinuityBranched [] []
+  | OHandoff th => [MTarget (nth_thread l th); MRead] ++ lineage_prog EContinuityHandoffCreated [] []
+  | ORead th => [MTarget (nth_thread l th); MRead]
+  end.
+
+(* the same calls as the code was before the S5 repair *)
+Definition prog_of_cop_unfixed (l : log) (o : cop) : list mstep :=
+  match o with
+  | OBranch th => [MTarget (nth_thread l th); MRead] ++ lineage_unfixed EContinuityBranched [] []
+  | OHandoff th => [MTarget (nth_thread l th); MRead] ++ lineage_unfixed EContinuityHandoffCreated [] []
+  | _ => prog_of_cop l o
+  end.
+
+Record case01 := {
+  c1_setup : list call;             (* sequential history incl. sidecar faults and restarts *)
+  c1_actors : list (list cop);      (* actor i runs its calls one after the other *)
+  c1_sched : list N;                (* one entry per micro-step granted *)
+  c1_expect : list N
+}.
+
+Definition actors_of (l : log) (acts : list (list cop)) : list (list mstep * N) :=
+  map (fun ops => (concat (map (prog_of_cop l) ops), 0)) acts.
+
+Definition run_case01 (c : case01) : state :=
+  let '(_, st) := run_calls empty_state (c1_setup c) in
+  run (c1_sched c) (spawn (actors_of (s_log st) (c1_actors c)) st).
+
+(* observation: did the final log validate (rip-log's validator), then the whole log canonically *)
+Definition model_obs_c01 (c : case01) : list N :=
+  let l := s_log (run_case01 c) in (if validate l then 1 else 0) :: canon_log l.
+Definition check_case_c01 (c : case01) : bool := lN_eqb (model_obs_c01 c) (c1_expect c).
